@@ -1,10 +1,145 @@
 import Driver.Util
-/-! Driver command for M-TRANS (request forwarding by a non-leader node): placeholder, replaced by the component's author. -/
-namespace Driver
+import Slock.Model.Trans
+/-! Driver command for M-TRANS (request forwarding by a node that is not the leader):
 
-def handleTrans (toks : List String) : Option String :=
-  match toks with
-  | "trans" :: _ => some "unimplemented"
+  trans <event>;<event>;…       one whole script per line; connections are numbered 0,1,… in `a` order
+events:
+  a b|t                                  accept a binary / text connection                       → ok
+  q <c> L|U <w|p|v> <tok> <flag> <db> <lockid> <key> <tflag> <timeout> <eflag> <expried> <count> <rcount> <data> <replica>
+                                         LOCK / UNLOCK (text: w = LOCK/UNLOCK, p = PUSH, v = SET); replica = n | m | <locked>[:<data>]
+  q <c> I <tok> <cid>                    INIT
+  q <c> C <tok> 0|1                      CALL (1 = LIST_LOCK / LIST_LOCKED / LIST_WAIT)
+  q <c> O                                any other command
+  Q …                                    as q …: the whole command arrived in the connection's first 64-byte read
+  re …                                   as r …: the frame was processed before `Write` had recorded the command as the latest
+  r <c> R L|U|I <tok> <result> <flag> <db> <lockid> <key> <lcount> <count> <lrcount> <rcount> <data>   lock result from the leader
+  r <c> I <tok> <result> <itype> | r <c> C <tok> <result> <content> | r <c> X
+  d <c>                                  the link of connection c loses its socket
+  s i|l|f|s|c|v|x                        node state (init leader follower sync config vote close)
+  l 0|1|2                                ChangeLeader: no address / the live leader / a dead address
+  x <c>                                  the client closes connection c
+output per event: ok | ign | busy | defer | loc | nolink | <to clients>|<forwarded>  with
+  to clients = `c>msg` joined by + (or -), forwarded = `c<cmd` joined by + (or -)
+ids (lockid, key, cid): a script number n, or z = the all-zero id.
+-/
+namespace Driver
+open Slock.Trans
+
+def tId (n : Nat) : String := if n = 0 then "z" else toString (n - 1)
+def tParseId (s : String) : Option Nat := if s == "z" then some 0 else (· + 1) <$> s.toNat?
+
+def tData (d : List Nat) : String := if d.isEmpty then "-" else toHex (d.map (·.toUInt8))
+def tParseData (s : String) : Option (List Nat) := (·.map (·.toNat)) <$> parseHex s
+
+def tCt : CType → String
+  | .lock => "L" | .unlock => "U" | .init => "I" | .call => "C"
+
+def showToClient : ToClient → String
+  | .lockRes r =>
+    if r.ct = .init then s!"I:{r.rid},{r.result},{r.flag}"
+    else s!"R:{tCt r.ct},{r.rid},{r.result},{r.flag},{r.dbId},{tId r.lockId},{tId r.lockKey},{r.lcount},{r.count},{r.lrcount},{r.rcount},{tData r.data}"
+  | .textRes r => s!"T:{r.result},{tId r.lockId},{r.lcount},{(r.count + 1) % 65536},{r.lrcount},{(r.rcount + 1) % 256}"
+  | .valueRes r => if r.result = 0 ∨ r.result = 5 then "V:ok" else if r.result = 8 then "V:nil" else s!"V:err{r.result}"
+  | .initRes rid res it => s!"I:{rid},{res},{it}"
+  | .callRes rid res content => s!"C:{rid},{res},{tData content}"
+  | .textErr .unknownDb => "E:db"
+  | .textErr .leaderServerError => "E:leader"
+  | .textOk => "K"
+
+def showFwd : Fwd → String
+  | .lk ct c => s!"{tCt ct}:{c.rid},{c.flag},{c.dbId},{tId c.lockId},{tId c.lockKey},{c.timeoutFlag},{c.timeout},{c.expriedFlag},{c.expried},{c.count},{c.rcount},{tData c.data}"
+  | .init rid cid => s!"I:{rid},{tId cid}"
+  | .call rid => s!"C:{rid}"
+
+def showTransOut (o : Out) : String :=
+  match o.tag with
+  | .ok => "ok"
+  | .ign => "ign"
+  | .busy => "busy"
+  | .deferred => "defer"
+  | .loc _ => "loc"
+  | .nolink => "nolink"
+  | _ =>
+    let cl := if o.client.isEmpty then "-" else "+".intercalate (o.client.map (fun p => s!"{p.1}>" ++ showToClient p.2))
+    let fw := if o.fwd.isEmpty then "-" else "+".intercalate (o.fwd.map (fun p => s!"{p.1}<" ++ showFwd p.2))
+    cl ++ "|" ++ fw
+
+def tParseReplica (s : String) : Option Replica :=
+  if s == "n" then some .noDb
+  else if s == "m" then some .noMgr
+  else
+    match s.splitOn ":" with
+    | [a] => do pure (.mgr (← a.toNat?) [])
+    | [a, d] => do pure (.mgr (← a.toNat?) (← tParseData d))
+    | _ => none
+
+def tParseRole : String → Option Role
+  | "i" => some .init | "l" => some .leader | "f" => some .follower | "s" => some .sync
+  | "c" => some .config | "v" => some .vote | "x" => some .close | _ => none
+
+def tParseCt : String → Option CType
+  | "L" => some .lock | "U" => some .unlock | "I" => some .init | "C" => some .call | _ => none
+
+def tParseMode : String → Option TextMode
+  | "w" => some .wait | "p" => some .push | "v" => some .value | _ => none
+
+def parseTransEvent (ts : List String) : Option Event :=
+  match ts with
+  | ["a", "b"] => some (.accept .binary)
+  | ["a", "t"] => some (.accept .text)
+  | ["q", c, k, m, tok, flag, db, lid, key, tf, t, ef, e, cnt, rc, d, rep] => do
+    let ct ← (if k == "L" then some CType.lock else if k == "U" then some CType.unlock else none)
+    let cmd : LockCmd :=
+      { rid := ← tok.toNat?, flag := ← flag.toNat?, dbId := ← db.toNat?, lockId := ← tParseId lid, lockKey := ← tParseId key,
+        timeoutFlag := ← tf.toNat?, timeout := ← t.toNat?, expriedFlag := ← ef.toNat?, expried := ← e.toNat?,
+        count := ← cnt.toNat?, rcount := ← rc.toNat?, data := ← tParseData d }
+    pure (.request (← c.toNat?) false (.lk ct (← tParseMode m) cmd (← tParseReplica rep)))
+  | ["q", c, "I", tok, cid] => do pure (.request (← c.toNat?) false (.init (← tok.toNat?) (← tParseId cid)))
+  | ["q", c, "C", tok, fw] => do pure (.request (← c.toNat?) false (.call (← tok.toNat?) (fw == "1")))
+  | ["q", c, "O"] => do pure (.request (← c.toNat?) false .other)
+  | ["r", c, "R", k, tok, res, flag, db, lid, key, lc, cnt, lrc, rc, d] => do
+    let r : LockRes :=
+      { ct := ← tParseCt k, rid := ← tok.toNat?, result := ← res.toNat?, flag := ← flag.toNat?, dbId := ← db.toNat?,
+        lockId := ← tParseId lid, lockKey := ← tParseId key, lcount := ← lc.toNat?, count := ← cnt.toNat?,
+        lrcount := ← lrc.toNat?, rcount := ← rc.toNat?, data := ← tParseData d }
+    pure (.leaderMsg (← c.toNat?) (.lockRes r) false)
+  | ["r", c, "I", tok, res, it] => do pure (.leaderMsg (← c.toNat?) (.initRes (← tok.toNat?) (← res.toNat?) (← it.toNat?)) false)
+  | ["r", c, "C", tok, res, d] => do pure (.leaderMsg (← c.toNat?) (.callRes (← tok.toNat?) (← res.toNat?) (← tParseData d)) false)
+  | ["r", c, "X"] => do pure (.leaderMsg (← c.toNat?) .other false)
+  | ["d", c] => do pure (.linkDown (← c.toNat?))
+  | ["s", r] => do pure (.role (← tParseRole r))
+  | ["l", "0"] => some (.leader .none)
+  | ["l", "1"] => some (.leader .live)
+  | ["l", "2"] => some (.leader .dead)
+  | ["x", c] => do pure (.close (← c.toNat?))
+  | _ => none
+
+def parseTransEvent' (ts : List String) : Option Event :=
+  match ts with
+  | "Q" :: rest =>
+    match parseTransEvent ("q" :: rest) with
+    | some (.request c _ q) => some (.request c true q)
+    | _ => none
+  | "re" :: rest =>
+    match parseTransEvent ("r" :: rest) with
+    | some (.leaderMsg c m _) => some (.leaderMsg c m true)
+    | _ => none
+  | _ => parseTransEvent ts
+
+def runTrans (s : Node) : List String → List String → Option (List String)
+  | [], acc => some acc.reverse
+  | ev :: evs, acc =>
+    match parseTransEvent' ((ev.splitOn " ").filter (· ≠ "")) with
+    | none => none
+    | some e =>
+      let r := step s e
+      runTrans r.1 evs (showTransOut r.2 :: acc)
+
+def handleTrans : List String → Option String
+  | "trans" :: rest => do
+    let evs := ((" ".intercalate rest).splitOn ";").filter (fun e => ((e.splitOn " ").filter (· ≠ "")) ≠ [])
+    let outs ← runTrans {} evs []
+    pure (";".intercalate outs)
   | _ => none
 
 end Driver
